@@ -10,3 +10,4 @@ mod c19;
 mod c15geo;
 mod c15pyr;
 mod c05;
+mod c02;
